@@ -9,6 +9,7 @@
 #include <BayesFilters/KFCorrection.h>
 #include <BayesFilters/LTIMeasurementModel.h>
 #include <BayesFilters/utils.h>
+#include <memory>
 
 using namespace bfl;
 using namespace Eigen;
@@ -28,6 +29,9 @@ int main() {
         ServedLTI* served = new ServedLTI(c.mat("H_s0"), c.mat("R_s0"), c.mat("y_s0"));
         KFCorrection kf((std::unique_ptr<LinearMeasurementModel>(served)));
         vf::out_begin(c.id);
+        const long extra = c.mi("extra", 0);     // additional components of the output object (frame)
+        const long alias = c.mi("alias", 0);     // correct(g, g): the output object is the input object
+        std::unique_ptr<GaussianMixture> corr_keep;   // reused across steps while the shape allows it
         for (long t = 0; t < steps; t++) {
             const std::string s = "_s" + std::to_string(t);
             const MatrixXd& means = c.mat("means" + s); const MatrixXd& covs = c.mat("covs" + s);
@@ -37,8 +41,13 @@ int main() {
             pred.mean() = means; pred.covariance() = covs;
             if (c.has_mat("weights" + s)) pred.weight() = c.mat("weights" + s);
             GaussianMixture pred_copy(pred);
-            GaussianMixture corr(comps, n);
-            corr.mean().setConstant(7.25); corr.covariance().setConstant(-3.5); corr.weight().setConstant(0.125);
+            if (!corr_keep || corr_keep->dim != (std::size_t)n || corr_keep->components != (std::size_t)(comps + extra)) {
+                corr_keep.reset(new GaussianMixture(comps + extra, n));
+                corr_keep->mean().setConstant(7.25); corr_keep->covariance().setConstant(-3.5);
+            }
+            GaussianMixture& corr = alias ? pred : *corr_keep;
+            if (!alias) for (long i = 0; i < comps + extra; i++) corr.weight(i) = 0.125 + i;   // distinct, not the prior's
+            GaussianMixture corr_before(corr);
             {
                 vf::Entry e("KFCorrection::correct");
                 kf.freeze_measurements();
@@ -49,7 +58,7 @@ int main() {
             // a second query must return the same values (no hidden state consumed by the query)
             bool ok2; VectorXd lik2;
             { vf::Entry e("KFCorrection::getLikelihood"); std::tie(ok2, lik2) = kf.getLikelihood(); }
-            vf::out_int("components" + s, corr.components);
+            vf::out_int("components" + s, (long)corr.components - (alias ? 0 : extra));   // components the output object reports, minus the frame ones
             for (long i = 0; i < comps; i++) {
                 vf::out_mat("mean" + std::to_string(i) + s, corr.mean(i));
                 vf::out_mat("cov" + std::to_string(i) + s, corr.covariance(i));
@@ -58,11 +67,13 @@ int main() {
             vf::out_int("lik_valid" + s, ok ? 1 : 0);
             vf::out_int("lik_size" + s, lik.size());
             vf::out_int("lik_requery_same" + s, (ok == ok2 && vf::bit_equal(lik, lik2)) ? 1 : 0);
-            vf::out_int("pred_unchanged" + s, vf::bit_equal(pred.mean(), pred_copy.mean()) && vf::bit_equal(pred.covariance(), pred_copy.covariance())
-                                              && vf::bit_equal(pred.weight(), pred_copy.weight()) ? 1 : 0);
-            bool wkept = true;
-            for (long i = 0; i < comps; i++) wkept = wkept && corr.weight(i) == 0.125;
-            vf::out_int("out_weights_kept" + s, wkept ? 1 : 0);
+            vf::out_int("pred_unchanged" + s, alias ? 1 : (vf::bit_equal(pred.mean(), pred_copy.mean()) && vf::bit_equal(pred.covariance(), pred_copy.covariance())
+                                              && vf::bit_equal(pred.weight(), pred_copy.weight()) ? 1 : 0));
+            // frame: the step writes mean(i) and covariance(i) of the first `comps` components only
+            bool frame = vf::bit_equal(corr.weight(), corr_before.weight()) && corr.components == corr_before.components && corr.dim == corr_before.dim;
+            for (long i = comps; i < comps + (alias ? 0 : extra); i++)
+                frame = frame && vf::bit_equal(corr.mean(i), corr_before.mean(i)) && vf::bit_equal(corr.covariance(i), corr_before.covariance(i));
+            vf::out_int("frame_kept" + s, frame ? 1 : 0);
         }
         vf::out_end();
     }
